@@ -40,8 +40,11 @@ pub fn run(prop: &str, ctx: &mut Ctx) -> bool {
                 ctx.tr.scenario("c03-soak-n8-indirect-eventidx"); qrig::soak::<8>(ctx, 3, 70_000);
             }
             // C04 at driver level: a driver that keeps several requests outstanding under tokens (sound PCM)
+            // C01 at driver level: every queue a driver creates gets exactly the negotiated ring features (an indirect table only
+            // if RING_INDIRECT_DESC was negotiated for THAT queue)
+            if prop == "C01" { c08::run_ring_features(ctx); }
             if prop == "C04" {
-                c20_snd::run_nb(ctx); c06::run_alloc_faults(ctx);
+                c20_snd::run_nb(ctx); c06::run_alloc_faults(ctx); c10::run_directed(ctx);
                 for f in 0..4u8 { ctx.tr.scenario(&format!("c04-anwp-refused-f{}", f)); qrig::anwp_refused::<4>(ctx, f); qrig::anwp_refused::<16>(ctx, f); }
             }
         }
@@ -51,7 +54,7 @@ pub fn run(prop: &str, ctx: &mut Ctx) -> bool {
         "C16" => c16::run(ctx),
         "C18" => c18::run(ctx),
         "C17" => { c17::run(ctx); c18::run_multi(ctx); }
-        "C09" => { c09::run(ctx); c20_gpu::run_backing(ctx); c20_snd::run_xfer(ctx); }
+        "C09" => { c09::run(ctx); c20_gpu::run_backing(ctx); c20_snd::run_xfer(ctx); c10::run_directed(ctx); }
         "C08" => c08::run(ctx),
         "C20" => { c20_gpu::run(ctx); c20_misc::run(ctx); c20_snd::run(ctx); }
         _ => return false,
